@@ -966,4 +966,67 @@ Section P.
     - apply IH; lia.
   Qed.
 
+
+  (* ---------- the whole pipeline does not depend on the order of the verifier's key map and of the parameter map ---------- *)
+  Theorem verify_perm_keys_params fuel w path d layout_env keys keys' step_name params params' inter :
+    Permutation keys keys' -> (forall l, subst l params = subst l params') ->
+    verify fuel w path d layout_env keys step_name params inter = verify fuel w path d layout_env keys' step_name params' inter.
+  Proof.
+    intros Hk Hs. destruct fuel as [|f]; [reflexivity|]. rewrite !verify_unfold. unfold Pipeline.verify_body.
+    rewrite (verify_layout_signatures_perm layout_env keys keys' Hk).
+    destruct (verify_layout_signatures vsig layout_env keys'); try reflexivity.
+    destruct (get_layout layout_env) as [l0|c|p]; try reflexivity.
+    destruct (expiry_ok (l_expires l0)); try reflexivity. rewrite (Hs l0). reflexivity.
+  Qed.
+
+
+  (* ---------- merging the reduced step links into the inspection links: as a map, independent of the order ---------- *)
+  Lemma merge_steps_lookup reduced acc n : NoDup (map fst reduced) ->
+    alookup (merge_steps reduced acc) n = match alookup reduced n with Some l => Some l | None => alookup acc n end.
+  Proof.
+    revert acc. induction reduced as [|[k l] r IH]; intros acc Hnd; simpl; [reflexivity|].
+    inversion Hnd as [|? ? Hk Hnd']; subst. rewrite (IH _ Hnd').
+    destruct (str_eqb_spec n k) as [->|Hne].
+    - rewrite (alookup_notin r k Hk). apply ainsert_lookup_same.
+    - destruct (alookup r n); [reflexivity|]. apply ainsert_lookup_other. exact Hne.
+  Qed.
+
+  Theorem merge_steps_perm reduced reduced' acc n : NoDup (map fst reduced) -> Permutation reduced reduced' ->
+    alookup (merge_steps reduced acc) n = alookup (merge_steps reduced' acc) n.
+  Proof.
+    intros Hnd Hp.
+    assert (Hnd' : NoDup (map fst reduced')) by (eapply Permutation_NoDup; [apply Permutation_map, Hp | exact Hnd]).
+    rewrite !merge_steps_lookup by assumption. rewrite (alookup_perm reduced reduced' n Hnd Hp). reflexivity.
+  Qed.
+
+
+  (* ---------- every resolved entry stems from the verified entry with the same step name and key id ---------- *)
+  Lemma sub_rel_entry rec L path d inter sname w links w' r :
+    sub_rel rec L path d inter sname w links w' r ->
+    forall k e', In (k, e') r ->
+      exists e, In (k, e) links /\ ((e' = e /\ env_is_layout e = false) \/ env_is_layout e = true).
+  Proof.
+    induction 1 as [w0|w0 kid e r0 wf rf Hl Hs IH|w0 kid e r0 w1 tr1 summary wf rf Hl Hc Hs IH]; intros k e' Hin.
+    - contradiction.
+    - destruct Hin as [Heq|Hin].
+      + inversion Heq; subst. exists e'. split; [left; reflexivity | left; auto].
+      + destruct (IH k e' Hin) as [e0 [H0 H1]]. exists e0. split; [right; exact H0 | exact H1].
+    - destruct Hin as [Heq|Hin].
+      + inversion Heq; subst. exists e. split; [left; reflexivity | right; exact Hl].
+      + destruct (IH k e' Hin) as [e0 [H0 H1]]. exists e0. split; [right; exact H0 | exact H1].
+  Qed.
+
+  Lemma subs_rel_entry rec L path d inter w m w' r :
+    subs_rel rec L path d inter w m w' r ->
+    forall s links' k e', In (s, links') r -> In (k, e') links' ->
+      exists links e, In (s, links) m /\ In (k, e) links /\ ((e' = e /\ env_is_layout e = false) \/ env_is_layout e = true).
+  Proof.
+    induction 1 as [w0|w0 sn ls w1 ls' r0 wf rf Hs Hr IH]; intros s links' k e' Hin Hin2.
+    - contradiction.
+    - destruct Hin as [Heq|Hin].
+      + inversion Heq; subst. destruct (sub_rel_entry _ _ _ _ _ _ _ _ _ _ Hs k e' Hin2) as [e [H0 H1]].
+        exists ls, e. split; [left; reflexivity | split; assumption].
+      + destruct (IH s links' k e' Hin Hin2) as [links [e [H0 [H1 H2]]]]. exists links, e. split; [right; exact H0 | split; assumption].
+  Qed.
+
 End P.
